@@ -262,6 +262,12 @@ type t3World struct {
 func newT3World(key *rsa.PrivateKey, seed int64, origins map[string]string) *t3World {
 	w := &t3World{key: key, issuer: type3.NewRateLimitedIssuer(key)}
 	for name, ik := range origins {
+		if ik == "" { // the issuer draws the index key itself
+			if err := w.issuer.AddOrigin(name); err != nil {
+				panic(err)
+			}
+			continue
+		}
 		sk, _ := ecdsa.CreateKey(elliptic.P384(), p384Scalar(seed, "indexkey-"+ik))
 		w.issuer.AddOriginWithIndexKey(name, sk)
 	}
